@@ -581,18 +581,13 @@ func touches(o op, c int) bool {
 // features: predicates describing the class of the history with respect to the diverged CID d.c
 // (black box: computed from the call log, the script and the schedule cost only).
 func (x *exec) features(d cdiff, res *vsched.Result) []string {
-	rewant, rebro, peerL, bcstL := false, false, false, false
+	rewant, rebro := false, false
 	for _, w := range x.calls {
 		if w.o.K == "RB" {
 			rebro = true
 		}
 		if !touches(w.o, d.c) || w.o.K == "CA" || w.o.K == "C2" {
 			continue
-		}
-		if w.o.K == "BH" {
-			bcstL = true
-		} else {
-			peerL = true
 		}
 		// a want for the CID that is not ordered strictly before some cancel of the CID
 		for _, a := range x.calls {
@@ -611,10 +606,10 @@ func (x *exec) features(d cdiff, res *vsched.Result) []string {
 		}
 	}
 	last := "none" // the last successfully sent message entry that mentions the CID
-	lastAt, cancelAt, cancelRet := -1, -1, -1
+	lastAt, cancelAt := -1, -1
 	for _, a := range x.calls {
 		if (a.o.K == "CA" || a.o.K == "C2") && touches(a.o, d.c) && a.start > cancelAt {
-			cancelAt, cancelRet = a.start, a.ret
+			cancelAt = a.start
 		}
 	}
 	for _, m := range x.msgs {
@@ -640,12 +635,8 @@ func (x *exec) features(d cdiff, res *vsched.Result) []string {
 		"diff", d.kind,
 		"last_message_for_cid", last,
 		"last_message_after_last_cancel_call", fmt.Sprint(cancelAt >= 0 && lastAt > cancelAt),
-		// the cancel call had started but not returned when that message went out: whether the message
-		// precedes or follows the cancel's critical section is not observable from outside
-		"last_message_during_last_cancel_call", fmt.Sprint(cancelAt >= 0 && lastAt > cancelAt && lastAt < cancelRet),
 		"want_not_before_cancel_same_cid", fmt.Sprint(rewant),
 		"rebroadcast", fmt.Sprint(rebro),
-		"cid_in_peer_and_broadcast_lists", fmt.Sprint(peerL && bcstL),
 		"queue_stuck", fmt.Sprint(x.stuck),
 		"size_limited", fmt.Sprint(x.sc.maxMsg != bigMsg),
 		"schedule_deviation", fmt.Sprint(dev > 0),
